@@ -180,6 +180,9 @@ func ReadResponse(r *bufio.Reader) (*Response, error) {
 
 	// 读取Body
 	cl := resp.Header.Int(FieldContentLength)
+	if cl > maxContentLength {
+		return nil, &badStringError{"Content-Length too large", resp.Header.get(FieldContentLength)}
+	}
 	if cl > 0 {
 		// 读取 n 字节的字串Body
 		body := make([]byte, cl)
